@@ -234,10 +234,10 @@ func c14Judge(res *explore.Result, s c14Stream, o c14Obs, want []string, where s
 
 func init() {
 	explore.Register(&explore.Check{
-		ID:        "C14",
-		Level:     "model_checking",
-		Technique: "exhaustive enumeration of binary COPY streams (table shapes x row sets x NULL placements x trailer) x all splits into CopyData messages up to a cut bound x single corruptions, decoded by the real BinaryCopyReader inside a live session and compared with what an independent encoder produced",
-		Rule:      "tables of 1-3 columns over int4/text/bool (+int8/float8/bytea thorough), 0-2 rows with every NULL placement, trailer present/absent; every split with <= k cuts (deviation = one cut), uniform chunk sizes, empty CopyData interleaved; corruptions: field count +1/-1/0/65535, field length beyond the data / 0xFFFFFFFE, every truncation point",
+		ID:          "C14",
+		Level:       "model_checking",
+		Technique:   "exhaustive enumeration of binary COPY streams (table shapes x row sets x NULL placements x trailer) x all splits into CopyData messages up to a cut bound x single corruptions, decoded by the real BinaryCopyReader inside a live session and compared with what an independent encoder produced",
+		Rule:        "tables of 1-3 columns over int4/text/bool (+int8/float8/bytea thorough), 0-2 rows with every NULL placement, trailer present/absent; every split with <= k cuts (deviation = one cut), uniform chunk sizes, empty CopyData interleaved; corruptions: field count +1/-1/0/65535, field length beyond the data / 0xFFFFFFFE, every truncation point",
 		Assumptions: []string{"header flags and extension length are 0 (the statement only requires the standard header)", "a stream truncated exactly at a row boundary is indistinguishable from a trailer-less stream and must decode cleanly"},
 		Enumerate:   c14Enumerate,
 		Bounds: func(tier string) map[string]any {
@@ -268,7 +268,9 @@ func c14Extra(tier string, emit explore.Emit) {
 				for _, cut := range []int{0, len(stream) - 2, len(stream) / 2} {
 					ab, cut := ab, cut
 					emit(explore.Case{Family: "abort-after-trailer", Size: rows,
-						Desc: func() any { return map[string]any{"stream": s.String(), "then": ab.name + " instead of CopyDone", "split_at": cut} },
+						Desc: func() any {
+							return map[string]any{"stream": s.String(), "then": ab.name + " instead of CopyDone", "split_at": cut}
+						},
 						Run: func() explore.Result {
 							var res explore.Result
 							res.Outcome = "corruption-rejected"
@@ -307,7 +309,9 @@ func c14Extra(tier string, emit explore.Emit) {
 			cuts = append(cuts, c)
 		}
 		emit(explore.Case{Family: "value-larger-than-limit", Size: 1,
-			Desc: func() any { return map[string]any{"message_limit": cfg.limit, "text_value_bytes": cfg.size, "copydata_chunk": cfg.chunk} },
+			Desc: func() any {
+				return map[string]any{"message_limit": cfg.limit, "text_value_bytes": cfg.size, "copydata_chunk": cfg.chunk}
+			},
 			Run: func() explore.Result {
 				var res explore.Result
 				res.Outcome = "split"
@@ -352,7 +356,9 @@ func c14EnumerateStream(tier string, s c14Stream, emit explore.Emit) {
 	splitCase := func(cuts []int, empties bool, size int) {
 		cuts = append([]int(nil), cuts...)
 		emit(explore.Case{Family: "split", Size: size,
-			Desc: func() any { return map[string]any{"stream": s.String(), "bytes": n, "cuts": cuts, "empty_copydata_interleaved": empties} },
+			Desc: func() any {
+				return map[string]any{"stream": s.String(), "bytes": n, "cuts": cuts, "empty_copydata_interleaved": empties}
+			},
 			Run: func() explore.Result {
 				var res explore.Result
 				res.Outcome = "split"
